@@ -21,25 +21,33 @@ import (
 
 // Opt is the option record enumerated by TLC (spec/Launch*.tla, same field names).
 type Opt struct {
-	Cred     bool `json:"cred"`
-	DropCaps bool `json:"dropcaps"`
-	NNP      bool `json:"nnp"`
-	Seccomp  bool `json:"seccomp"`
-	Ptrace   bool `json:"ptrace"`
-	Stop     bool `json:"stop"`
-	Sync     bool `json:"sync"`
-	UCG      bool `json:"ucg"`
-	Pivot    bool `json:"pivot"`
-	User     bool `json:"user"`
-	Pid      bool `json:"pid"`
-	Mnt      bool `json:"mnt"`
-	Uts      bool `json:"uts"`
-	Ipc      bool `json:"ipc"`
-	Net      bool `json:"net"`
-	CgNs     bool `json:"cgns"`
-	CgFd     bool `json:"cgfd"`
-	Amb      bool `json:"amb"`
+	Cred     bool   `json:"cred"`
+	DropCaps bool   `json:"dropcaps"`
+	NNP      bool   `json:"nnp"`
+	Seccomp  bool   `json:"seccomp"`
+	Ptrace   bool   `json:"ptrace"`
+	Stop     bool   `json:"stop"`
+	Sync     bool   `json:"sync"`
+	UCG      bool   `json:"ucg"`
+	Pivot    bool   `json:"pivot"`
+	User     bool   `json:"user"`
+	Pid      bool   `json:"pid"`
+	Mnt      bool   `json:"mnt"`
+	Uts      bool   `json:"uts"`
+	Ipc      bool   `json:"ipc"`
+	Net      bool   `json:"net"`
+	CgNs     bool   `json:"cgns"`
+	CgFd     bool   `json:"cgfd"`
+	Amb      bool   `json:"amb"`
+	Grp      string `json:"grp"`  // several | one | empty | nosg  (Credential.Groups / NoSetGroups)
+	Gmap     string `json:"gmap"` // allow | deny  (GIDMappingsEnableSetgroups of the gid map given with a user namespace)
 }
+
+// LauncherGroups are the supplementary groups every launcher process of this family gives itself, so that
+// "the program inherited the launcher's groups" can be told from "the program has no / the requested groups".
+var LauncherGroups = []int{4242, 4343}
+
+func setLauncherGroups() error { return syscall.Setgroups(LauncherGroups) }
 
 // Case is one launch request.  Fail/Idx/Cb are used by C07 only ("none" for C04).
 type Case struct {
@@ -384,14 +392,26 @@ func basePlan(e *Env, c Case) *plan {
 	if o.User {
 		r.UIDMappings = []syscall.SysProcIDMap{{ContainerID: 0, HostID: 0, Size: 65536}}
 		r.GIDMappings = []syscall.SysProcIDMap{{ContainerID: 0, HostID: 0, Size: 65536}}
-		r.GIDMappingsEnableSetgroups = true
+		r.GIDMappingsEnableSetgroups = o.Gmap != "deny"
 	}
 	p.req.Groups = []int{}
 	if o.Cred {
 		k := id % 500
-		p.req.UID, p.req.GID, p.req.Groups = 1000+k, 2000+k, []int{3000 + k, 4000 + k}
-		r.Credential = &syscall.Credential{Uid: uint32(p.req.UID), Gid: uint32(p.req.GID),
-			Groups: []uint32{uint32(3000 + k), uint32(4000 + k)}}
+		p.req.UID, p.req.GID = 1000+k, 2000+k
+		r.Credential = &syscall.Credential{Uid: uint32(p.req.UID), Gid: uint32(p.req.GID)}
+		switch o.Grp {
+		case "one":
+			p.req.Groups = []int{3000 + k}
+		case "empty":
+		case "nosg": // nothing requested: the list is ignored by the launcher
+			r.Credential.NoSetGroups = true
+			r.Credential.Groups = []uint32{uint32(3000 + k)}
+		default:
+			p.req.Groups = []int{3000 + k, 4000 + k}
+		}
+		for _, g := range p.req.Groups {
+			r.Credential.Groups = append(r.Credential.Groups, uint32(g))
+		}
 	}
 	r.DropCaps = o.DropCaps
 	r.NoNewPrivs = o.NNP
